@@ -1,10 +1,12 @@
 package adapt
 
 import (
+	"context"
 	"encoding/json"
 	"fmt"
 	"sort"
 	"strings"
+	"time"
 
 	"verifharness/refmodel"
 	"verifharness/val"
@@ -81,26 +83,31 @@ type Op struct {
 	Filter string   `json:"filter,omitempty"`
 	Proj   string   `json:"proj,omitempty"` // ProjectionExpression (get, query, scan)
 	// read options (get, query, scan, batchget): they may narrow what THIS call returns, never what is stored
-	AttrsToGet []string          `json:"attrstoget,omitempty"` // legacy AttributesToGet
-	Consistent bool              `json:"consistent,omitempty"` // ConsistentRead
-	NoUpdate   bool              `json:"noupdate,omitempty"`   // UpdateItem without any UpdateExpression (nil pointer, not "")
-	Select     string            `json:"select,omitempty"`     // query, scan: ALL_ATTRIBUTES | COUNT | SPECIFIC_ATTRIBUTES ...
-	Names      map[string]string `json:"names,omitempty"`
-	Values     val.Item          `json:"values,omitempty"`
-	Index      string            `json:"index,omitempty"`
-	Limit      int               `json:"limit,omitempty"`
-	Start      val.Item          `json:"start,omitempty"`
-	Rev        bool              `json:"rev,omitempty"`
-	RetOld     bool              `json:"retold,omitempty"`  // ReturnValues=ALL_OLD
-	RetCCF     bool              `json:"retccf,omitempty"`  // ReturnValuesOnConditionCheckFailure=ALL_OLD
-	Spec       *TableSpec        `json:"spec,omitempty"`    // createtable
-	Chg        []IndexChange     `json:"changes,omitempty"` // updatetable
-	Defs       [][2]string       `json:"defs,omitempty"`    // updatetable: attribute definitions (name, type) declared explicitly by the request
-	NoDefs     bool              `json:"nodefs,omitempty"`  // updatetable: do NOT declare the key attributes of created indexes (they may have been declared by an earlier request)
-	Ix         *IndexSpec        `json:"ix,omitempty"`      // addindex (helper; S keys only)
-	Batch      []BatchEntry      `json:"batch,omitempty"`
-	Gets       []BatchEntry      `json:"gets,omitempty"` // batchget: Table + Del(=key)
-	Fail       string            `json:"fail,omitempty"` // emulate: none|internal_server|deprecated
+	AttrsToGet []string `json:"attrstoget,omitempty"` // legacy AttributesToGet
+	Consistent bool     `json:"consistent,omitempty"` // ConsistentRead
+	// DoneCtx: make the call with a context that is already done ("cancelled", "expired")
+	DoneCtx string `json:"donectx,omitempty"`
+	// Scan as one worker of a parallel scan: TotalSegments > 0 sends Segment and TotalSegments
+	Segment       int               `json:"segment,omitempty"`
+	TotalSegments int               `json:"totalsegments,omitempty"`
+	NoUpdate      bool              `json:"noupdate,omitempty"` // UpdateItem without any UpdateExpression (nil pointer, not "")
+	Select        string            `json:"select,omitempty"`   // query, scan: ALL_ATTRIBUTES | COUNT | SPECIFIC_ATTRIBUTES ...
+	Names         map[string]string `json:"names,omitempty"`
+	Values        val.Item          `json:"values,omitempty"`
+	Index         string            `json:"index,omitempty"`
+	Limit         int               `json:"limit,omitempty"`
+	Start         val.Item          `json:"start,omitempty"`
+	Rev           bool              `json:"rev,omitempty"`
+	RetOld        bool              `json:"retold,omitempty"`  // ReturnValues=ALL_OLD
+	RetCCF        bool              `json:"retccf,omitempty"`  // ReturnValuesOnConditionCheckFailure=ALL_OLD
+	Spec          *TableSpec        `json:"spec,omitempty"`    // createtable
+	Chg           []IndexChange     `json:"changes,omitempty"` // updatetable
+	Defs          [][2]string       `json:"defs,omitempty"`    // updatetable: attribute definitions (name, type) declared explicitly by the request
+	NoDefs        bool              `json:"nodefs,omitempty"`  // updatetable: do NOT declare the key attributes of created indexes (they may have been declared by an earlier request)
+	Ix            *IndexSpec        `json:"ix,omitempty"`      // addindex (helper; S keys only)
+	Batch         []BatchEntry      `json:"batch,omitempty"`
+	Gets          []BatchEntry      `json:"gets,omitempty"` // batchget: Table + Del(=key)
+	Fail          string            `json:"fail,omitempty"` // emulate: none|internal_server|deprecated
 
 	// ASTs the expression texts above were rendered from (what the oracle evaluates).
 	CondAST   *refmodel.Cond   `json:"condast,omitempty"`
@@ -168,6 +175,7 @@ const (
 	ClsRejectPanic = "RejectPanic"     // documented panic carrying ErrSyntaxError/ErrUnsupportedFeature
 	ClsRuntime     = "RuntimePanic"    // any other panic
 	ClsNotImpl     = "NotImplemented"  // adapter has no such method
+	ClsCancelled   = "Cancelled"       // the call reported that its context was done (context.Canceled / DeadlineExceeded)
 )
 
 // Outcome is the normalised result of an operation.
@@ -255,6 +263,16 @@ func (op Op) String() string {
 		return fmt.Sprintf("%#v", op)
 	}
 	return string(b)
+}
+
+// DoneContext returns a context that is already done.
+func DoneContext(how string) (context.Context, context.CancelFunc) {
+	if how == "expired" {
+		return context.WithDeadline(context.Background(), time.Unix(0, 0))
+	}
+	ctx, cancel := context.WithCancel(context.Background())
+	cancel()
+	return ctx, cancel
 }
 
 // updExpr is the UpdateExpression pointer of an update: nil when the request carries none at all.
